@@ -154,6 +154,8 @@ func rulesC02(c *Ctx) {
 	R.Rule("R6", "fee limit argument of every pay call = stored FeeReserve or FeeReserve(AmountMsat/1000); backends forward maxFee", 4)
 	R.Rule("R7", "melt quote creation: Amount from the decoded invoice / MPP option, FeeReserve = FeeReserve(Amount) or 0", 3)
 	R.Rule("R8", "every input is counted once: the spent-table insert is a plain INSERT inside one transaction (a repeated secret fails the whole request)", 4)
+	R.Rule("R17", "a refused swap creates no ecash: swap stores its signatures only after the spent-table insert succeeded (shared with C01.R3) - the loser of a double-spend race would otherwise leave restorable signatures behind", 1)
+	c.ruleSigsAfterSpent("R17")
 	R.Rule("R16", "who signs: every call of the blind-signing primitive lies in the swap or the mint operation (or helpers only they reach); no other operation creates ecash", 3)
 	c.ruleWhoSigns("R16")
 	R.Rule("R14", "which pay call: the call that pays the whole invoice is made only for a quote that is not MPP, the partial call only for an MPP quote and with the stored AmountMsat; at creation the MPP flag is set exactly on the paths that store the partial amount", 4)
